@@ -32,6 +32,8 @@ type Engine struct {
 	maxViol     int
 	maxWitness  int
 	noSummaries bool
+	params      map[string]int
+	redirects   map[string]*ssa.Function
 
 	mu          sync.Mutex
 	work        []*workItem
@@ -60,19 +62,22 @@ type workItem struct {
 }
 
 type Worker struct {
-	eng    *Engine
-	st     *Store
-	solver *Solver
-	aux    []*Solver
-	consts map[*ssa.Const]Value
-	id     int
+	eng        *Engine
+	st         *Store
+	solver     *Solver
+	aux        []*Solver
+	consts     map[*ssa.Const]Value
+	id         int
+	qcache     map[string]qres
+	vcache     map[int32][]int32
+	nCacheHits int
 
-	nForks, nForkQueries, nAssumeQueries       int
+	nForks, nForkQueries, nAssumeQueries         int
 	nAssertQueries, nAssertUnsat, nAssertTrivial int
-	nCross, nCrossDisagree                      int
-	steps                                       int64
-	paths                                       int
-	funcs                                       map[*ssa.Function]bool
+	nCross, nCrossDisagree                       int
+	steps                                        int64
+	paths                                        int
+	funcs                                        map[*ssa.Function]bool
 }
 
 func loadProgram(repo string, overlay map[string][]byte, patterns []string) (*ssa.Program, []*ssa.Package, error) {
@@ -261,7 +266,7 @@ func (e *Engine) initOrder(pkg *ssa.Package) []*ssa.Package {
 
 func (e *Engine) worker(id int, harnesses map[string]*ssa.Function, wg *sync.WaitGroup) {
 	defer wg.Done()
-	w := &Worker{eng: e, st: NewStore(), consts: map[*ssa.Const]Value{}, id: id, funcs: map[*ssa.Function]bool{}}
+	w := &Worker{eng: e, st: NewStore(), consts: map[*ssa.Const]Value{}, id: id, qcache: map[string]qres{}, vcache: map[int32][]int32{}, funcs: map[*ssa.Function]bool{}}
 	var err error
 	w.solver, err = NewSolver("z3")
 	if err != nil {
@@ -323,15 +328,15 @@ func (e *Engine) worker(id int, harnesses map[string]*ssa.Function, wg *sync.Wai
 func typesPointer(t *ssa.Type) types.Type { return types.NewPointer(t.Type()) }
 
 type aggStats struct {
-	Forks, ForkQueries, AssumeQueries             int
-	AssertQueries, AssertUnsat, AssertTrivial      int
-	Cross, CrossDisagree                           int
-	Steps                                          int64
-	Paths                                          int
+	Forks, ForkQueries, AssumeQueries                                  int
+	AssertQueries, AssertUnsat, AssertTrivial                          int
+	Cross, CrossDisagree, CacheHits                                    int
+	Steps                                                              int64
+	Paths                                                              int
 	SolverQueries, SolverSat, SolverUnsat, SolverUnknown, SolverErrors int
-	SolverTime                                     time.Duration
-	AuxQueries                                     map[string]int
-	AuxTime                                        map[string]time.Duration
+	SolverTime                                                         time.Duration
+	AuxQueries                                                         map[string]int
+	AuxTime                                                            map[string]time.Duration
 }
 
 var agg = &aggStats{AuxQueries: map[string]int{}, AuxTime: map[string]time.Duration{}}
@@ -343,6 +348,7 @@ func (a *aggStats) add(w *Worker) {
 	a.AssertQueries += w.nAssertQueries
 	a.AssertUnsat += w.nAssertUnsat
 	a.AssertTrivial += w.nAssertTrivial
+	a.CacheHits += w.nCacheHits
 	a.Cross += w.nCross
 	a.CrossDisagree += w.nCrossDisagree
 	a.Steps += w.steps
